@@ -26,6 +26,8 @@ type dispRec struct {
 	IDs        []string            `json:"ids"`       // every function that calls rt.Enter
 	PtrReach   []string            `json:"ptr_reach"` // ids in state.ReachableFunctions()
 	Edges      []string            `json:"edges"`     // "a>b": call-graph path a->b through synthetic wrappers only
+	EdgesCG    []string            `json:"edges_cg"`  // same, in the stand-alone call graph df.PointerAnalysis.ComputeCallgraph (no queries)
+	ReachCG    []string            `json:"reach_cg"`  // ids in CallGraphReachable of that graph
 	Resolve    []string            `json:"resolve"`   // "a>b": b among ResolveCallee of some call instruction of a (modulo wrappers)
 	Find       map[string][]string `json:"find"`      // root selection -> ids in FindReachable
 	CGNotFind  []string            `json:"cg_not_find"`
@@ -104,38 +106,56 @@ func dispatchCmd(args []string) int {
 			}
 			sort.Strings(rec.PtrReach)
 			cg := st.PointerAnalysis.CallGraph
-			edgeSet := map[string]bool{}
-			for f, a := range idOf {
-				n := cg.Nodes[f]
-				if n == nil {
-					continue
-				}
-				// DFS from n through synthetic (id-less) functions only
-				seen := map[*callgraph.Node]bool{n: true}
-				stack := []*callgraph.Node{n}
-				for len(stack) > 0 {
-					cur := stack[len(stack)-1]
-					stack = stack[:len(stack)-1]
-					for _, e := range cur.Out {
-						if seen[e.Callee] {
-							continue
+			edgesOf := func(cg *callgraph.Graph) []string {
+				edgeSet := map[string]bool{}
+				for f, a := range idOf {
+					n := cg.Nodes[f]
+					if n == nil {
+						continue
+					}
+					// DFS from n through synthetic (id-less) functions only
+					seen := map[*callgraph.Node]bool{n: true}
+					stack := []*callgraph.Node{n}
+					for len(stack) > 0 {
+						cur := stack[len(stack)-1]
+						stack = stack[:len(stack)-1]
+						for _, e := range cur.Out {
+							if seen[e.Callee] {
+								continue
+							}
+							seen[e.Callee] = true
+							if b, ok := idOf[e.Callee.Func]; ok {
+								edgeSet[a+">"+b] = true
+								continue
+							}
+							if e.Callee.Func.Pkg == l.RT {
+								continue
+							}
+							stack = append(stack, e.Callee) // wrapper, thunk, bound method, instantiation, anonymous without id
 						}
-						seen[e.Callee] = true
-						if b, ok := idOf[e.Callee.Func]; ok {
-							edgeSet[a+">"+b] = true
-							continue
-						}
-						if e.Callee.Func.Pkg == l.RT {
-							continue
-						}
-						stack = append(stack, e.Callee) // wrapper, thunk, bound method, instantiation, anonymous without id
 					}
 				}
+				var out []string
+				for e := range edgeSet {
+					out = append(out, e)
+				}
+				sort.Strings(out)
+				return out
 			}
-			for e := range edgeSet {
-				rec.Edges = append(rec.Edges, e)
+			rec.Edges = edgesOf(cg)
+			// the stand-alone call graph of the callgraph-based tools (render, compare): pointer analysis without queries
+			cg2, err := df.PointerAnalysis.ComputeCallgraph(l.Prog)
+			if err != nil {
+				rec.LoadErr = "ComputeCallgraph: " + err.Error()
+				return
 			}
-			sort.Strings(rec.Edges)
+			rec.EdgesCG = edgesOf(cg2)
+			for f := range df.CallGraphReachable(cg2, false, false) {
+				if id, ok := idOf[f]; ok {
+					rec.ReachCG = append(rec.ReachCG, id)
+				}
+			}
+			sort.Strings(rec.ReachCG)
 			// callee resolution used by the dataflow analysis
 			resSet := map[string]bool{}
 			for f, a := range idOf {
